@@ -297,12 +297,196 @@ fn dispatch(p: &Prog, mode: &Mode) -> ExecResult {
     d!(1, 2, 3, 7, 8, 9, 63, 64, 65, 200)
 }
 
+// ---------------------------------------------------------------------------------------------
+// long real-thread runs ("hammer"): one writer mixing copy stores and slow two-phase loan fills, two
+// readers loading in a tight loop; values carry their full version, so tearing AND going backwards are
+// visible after millions of loads. Complements the tiny programs above, whose stall plans reach windows
+// between atomic operations but not a window that needs a publish plus a half-finished next fill inside
+// one reader's load.
+pub trait HVal: Copy + Send + Sync + 'static {
+    const NAME: &'static str;
+    fn make(v: u64) -> Self;
+    /// Err = mixture of two writes; Ok(Some(v)) = consistent with a comparable version
+    fn decode(&self) -> Result<Option<u64>, ()>;
+}
+#[derive(Clone, Copy)]
+#[repr(C)]
+pub struct H2([u8; 2]);
+impl HVal for H2 {
+    const NAME: &'static str = "2B";
+    fn make(v: u64) -> Self {
+        H2([v as u8, !(v as u8)])
+    }
+    fn decode(&self) -> Result<Option<u64>, ()> {
+        if self.0[1] == !self.0[0] { Ok(None) } else { Err(()) }
+    }
+}
+#[derive(Clone, Copy)]
+#[repr(C)]
+pub struct H5([u8; 5]);
+impl HVal for H5 {
+    const NAME: &'static str = "5B";
+    fn make(v: u64) -> Self {
+        let v = v & 0xff; // decode recomputes the bytes from the first byte alone
+        let mut x = [0u8; 5];
+        for (i, b) in x.iter_mut().enumerate() {
+            *b = byte(v, i);
+        }
+        H5(x)
+    }
+    fn decode(&self) -> Result<Option<u64>, ()> {
+        let v = self.0[0] as u64;
+        if self.0.iter().enumerate().all(|(i, b)| *b == byte(v, i)) { Ok(None) } else { Err(()) }
+    }
+}
+#[derive(Clone, Copy)]
+#[repr(C)]
+pub struct H8 {
+    a: u32,
+    b: u32,
+}
+impl HVal for H8 {
+    const NAME: &'static str = "8B(u32,u32)";
+    fn make(v: u64) -> Self {
+        H8 { a: v as u32, b: !(v as u32) }
+    }
+    fn decode(&self) -> Result<Option<u64>, ()> {
+        if self.b == !self.a { Ok(Some(self.a as u64)) } else { Err(()) }
+    }
+}
+#[derive(Clone, Copy)]
+#[repr(C)]
+pub struct H24([u64; 3]);
+impl HVal for H24 {
+    const NAME: &'static str = "24B";
+    fn make(v: u64) -> Self {
+        H24([v, !v, v.wrapping_mul(31)])
+    }
+    fn decode(&self) -> Result<Option<u64>, ()> {
+        if self.0[1] == !self.0[0] && self.0[2] == self.0[0].wrapping_mul(31) { Ok(Some(self.0[0])) } else { Err(()) }
+    }
+}
+
+fn hammer<T: HVal>(rep: &mut Report, millis: u64, seed: u64) {
+    use std::sync::atomic::AtomicBool;
+    let a = UnrestrictedAtomic::<T>::new(T::make(0));
+    let stop = AtomicBool::new(false);
+    let stores = AtomicU64::new(0);
+    // per reader: loads, torn, backwards, distinct versions seen, first witness
+    let res: Mutex<Vec<(u64, u64, u64, u64, String)>> = Mutex::new(Vec::new());
+    std::thread::scope(|sc| {
+        sc.spawn(|| {
+            let pr = a.acquire_producer().expect("fresh atomic has no producer");
+            let mut rng = Rng::derive(&[seed, 1212]);
+            let t0 = std::time::Instant::now();
+            let mut v = 1u64;
+            while t0.elapsed().as_millis() < millis as u128 {
+                for _ in 0..64 {
+                    if rng.chance(1, 2) {
+                        pr.store(T::make(v));
+                    } else {
+                        // loan style: the user fills the cell at leisure, byte by byte, then publishes
+                        let val = T::make(v);
+                        let n = core::mem::size_of::<T>();
+                        unsafe {
+                            let dst = pr.__internal_get_ptr_to_write_cell() as *mut u8;
+                            let src = &val as *const T as *const u8;
+                            for i in 0..n {
+                                dst.add(i).write_volatile(*src.add(i));
+                                if i + 1 == (n + 1) / 2 {
+                                    for _ in 0..rng.below(40) {
+                                        std::hint::spin_loop();
+                                    }
+                                }
+                            }
+                            pr.__internal_update_write_cell();
+                        }
+                    }
+                    v += 1;
+                }
+            }
+            stores.store(v - 1, Relaxed);
+            stop.store(true, std::sync::atomic::Ordering::Release);
+        });
+        for _ in 0..2 {
+            sc.spawn(|| {
+                let (mut loads, mut torn, mut back, mut distinct) = (0u64, 0u64, 0u64, 0u64);
+                let mut last: Option<u64> = None;
+                let mut wit = String::new();
+                while !stop.load(std::sync::atomic::Ordering::Acquire) {
+                    for _ in 0..256 {
+                        let x = a.load();
+                        loads += 1;
+                        match x.decode() {
+                            Err(()) => {
+                                torn += 1;
+                                if wit.is_empty() {
+                                    wit = format!("load #{} returned a mixture of two writes", loads);
+                                }
+                            }
+                            Ok(Some(v)) => {
+                                if let Some(l) = last {
+                                    if v < l {
+                                        back += 1;
+                                        if wit.is_empty() {
+                                            wit = format!("load #{} returned version {} after version {}", loads, v, l);
+                                        }
+                                    } else if v > l {
+                                        distinct += 1;
+                                    }
+                                }
+                                last = Some(v);
+                            }
+                            Ok(None) => {}
+                        }
+                    }
+                }
+                res.lock().unwrap().push((loads, torn, back, distinct, wit));
+            });
+        }
+    });
+    let res = res.into_inner().unwrap();
+    let loads: u64 = res.iter().map(|r| r.0).sum();
+    let torn: u64 = res.iter().map(|r| r.1).sum();
+    let back: u64 = res.iter().map(|r| r.2).sum();
+    let distinct: u64 = res.iter().map(|r| r.3).sum();
+    let nstores = stores.load(Relaxed);
+    rep.execs += 1;
+    rep.count("hammer_runs", 1);
+    rep.count(&format!("hammer_loads_{}", T::NAME), loads);
+    rep.count(&format!("hammer_stores_{}", T::NAME), nstores);
+    rep.count("hammer_version_changes_seen_by_readers", distinct);
+    if loads > 1000 && nstores > 1000 {
+        rep.nontrivial += 1;
+        rep.distinct(vkit::fnv_str(&format!("hammer{}{}{}", T::NAME, seed, loads)));
+    } else {
+        rep.inconclusive += 1;
+    }
+    let wit = res.iter().map(|r| r.4.clone()).find(|w| !w.is_empty()).unwrap_or_default();
+    let w = Json::obj().set("value", T::NAME).set("loads", loads).set("stores", nstores).set("torn", torn).set("backwards", back).set("first", wit.clone());
+    if torn > 0 {
+        rep.violation("torn_read", "C12:atomic:torn_read", format!("hammer run, {} value: {} of {} loads returned a mixture of two writes ({})", T::NAME, torn, loads, wit), w.clone());
+    }
+    if back > 0 {
+        rep.violation("version_went_backwards", "C12:atomic:version_went_backwards", format!("hammer run, {} value: {} of {} loads returned an older version than the reader's previous load ({})", T::NAME, back, loads, wit), w);
+    }
+}
+
 pub fn run(args: &Args) -> Report {
     let seed = args.u64("seed", 1);
     let shard = args.u64("shard", 0);
     let b = Budget::from_args(args);
     let single = args.flag("single-store");
     let mut rep = Report::new();
+    if !cfg!(miri) && !single && b.only_prog.is_none() {
+        let ms = args.u64("hammer-ms", 300);
+        if ms > 0 {
+            hammer::<H2>(&mut rep, ms, seed ^ shard);
+            hammer::<H5>(&mut rep, ms, seed ^ shard);
+            hammer::<H8>(&mut rep, ms, seed ^ shard);
+            hammer::<H24>(&mut rep, ms, seed ^ shard);
+        }
+    }
     let mut i = 0u64;
     while i < b.max_progs && !b.expired() {
         let pi = b.only_prog.unwrap_or(i);
